@@ -102,6 +102,12 @@ CONFIGURED_ONLY = {
                                    cfg=lambda debug: dict(answers=(['a', 'b'], {'expect': ['c', 'd'], 'grade_decimal': 0.5}),
                                                           subgrader=StringGrader(), debug=debug),
                                    inputs=dict(rightA='b,a', rightB='c,d', wrong='z,z', malformed='a,,b', nontext=5)),
+    # a debugging math subgrader below a parent that is not debugging (its log must not depend on earlier use of the child)
+    'ListDebugChild': dict(cls=ListGrader,
+                           cfg=lambda debug: dict(answers=['x+1', '2*x'],
+                                                  subgraders=FormulaGrader(variables=['x'], debug=True), debug=debug),
+                           inputs=dict(rightA=['x+1', '2*x'], rightB=['2*x', '1+x'], wrong=['x', 'x'], malformed=['x+', 'x'],
+                                       nontext='x')),
     'Sum': dict(cls=SumGrader, cfg=lambda debug: dict(answers=dict(lower='1', upper='3', summand='n', summation_variable='n'),
                                                      debug=debug),
                 inputs=dict(rightA=['1', '3', 'n', 'n'], rightB=['3', '1', 'm', 'm'], wrong=['1', '4', 'n', 'n'],
@@ -319,6 +325,16 @@ def foreign(name, sysm):
                         'sqrt(-1)', 'y', 'f(x)', 'sin(x', 'x+', '2x', 'sin(1,2)', '0^-1', '(0+0*i)^i'):
                 do_call(fg, None, bad)
             do_call(NumericalGrader(answers='1'), None, 'x')
+        elif name == 'subgrader_used_standalone':
+            # the author's subgrader object is also used inside another, debugging, parent
+            g1 = sysm.g['g1']
+            sub = g1.config.get('subgraders', g1.config.get('subgrader'))
+            subs = sub if isinstance(sub, list) else [sub]
+            for sg in subs:
+                if isinstance(sg, ItemGrader):
+                    if isinstance(sg, (FormulaGrader, StringGrader)):
+                        do_call(ListGrader(answers=['x+1', 'x+1'] if isinstance(sg, FormulaGrader) else ['cat', 'cat'],
+                                           subgraders=sg, debug=True), None, ['x+1', 'x'] if isinstance(sg, FormulaGrader) else ['cat', 'x'])
         elif name == 'other_graders_battery':
             # quick tier: the unrelated-grader events rolled into one
             for sub in ('other_matrix_negpow_off_raises', 'other_grader_deletes_pi', 'other_graders_with_options',
@@ -338,8 +354,8 @@ def foreign(name, sysm):
 
 FOREIGN_ALL = ['other_matrix_negpow_off_raises', 'third_grader_from_same_author_config', 'other_grader_deletes_pi',
                'other_graders_with_options', 'other_graders_hit_errors']
-FOREIGN_Q = ['third_grader_from_same_author_config', 'other_graders_battery']
-FOREIGN_T = FOREIGN_ALL + ['failing_parse', 'other_grader_allow_inf', 'other_grader_identity_dim',
+FOREIGN_Q = ['third_grader_from_same_author_config', 'other_graders_battery', 'subgrader_used_standalone']
+FOREIGN_T = FOREIGN_ALL + ['subgrader_used_standalone', 'failing_parse', 'other_grader_allow_inf', 'other_grader_identity_dim',
                          'other_matrix_negpow_off_ok', 'register_clear_defaults_on_sibling']
 
 
@@ -562,7 +578,8 @@ def _short(o):
 # ------------------------------------------------------------------ scopes are not mutated
 
 SCOPE_EXPRS = ['x+1', 'x*A', 'A*A', 'A^2', '-A', 'A+A', 'A-A', 'A*v', 'v*A', 'v*v', 'A/2', '2*A', 'A^-1', 'f(x)', 'f(A)', 'g(A)',
-               'trans(A)', 'abs(v)', '[x,x]+v', 'A+0', 'A*x', 'x^2', 'A^0', 'A*A*A', 'v/x', 'x*v*2', 'h(v)', 'cross(w,w)', 'w*2']
+               'trans(A)', 'abs(v)', '[x,x]+v', 'A+0', 'A*x', 'x^2', 'A^0', 'A*A*A', 'v/x', 'x*v*2', 'h(v)', 'cross(w,w)', 'w*2',
+               'srt(v)', 'poke(A)', 'poke(v)+srt(w)', 'wipe(w)', 'srt(v)*v', 'poke(A)*A']
 
 
 class Scopes(Family):
@@ -590,9 +607,20 @@ class Scopes(Family):
         def h_inplace(u):
             u *= 2
             return 2.0
-        V = {'x': 2.0, 'A': MathArray([[1.0, 2.0], [3.0, 5.0]]), 'v': MathArray([1.0, -1.0]), 'w': MathArray([1.0, 2.0, 3.0])}
+        def srt(u):           # author helpers that write into their argument by other means than arithmetic operators
+            u.sort()
+            return 1.0
+
+        def poke(u):
+            u[0] = 99.0
+            return 2.0
+
+        def wipe(u):
+            u.fill(0.0)
+            return 3.0
+        V = {'x': 2.0, 'A': MathArray([[1.0, 2.0], [3.0, 5.0]]), 'v': MathArray([1.0, -1.0]), 'w': MathArray([3.0, 2.0, 1.0])}
         F = dict(MF.ARRAY_FUNCTIONS) if hasattr(MF, 'ARRAY_FUNCTIONS') else {}
-        F.update({'f': lambda t: t * 2, 'g': g_inplace, 'h': h_inplace})
+        F.update({'f': lambda t: t * 2, 'g': g_inplace, 'h': h_inplace, 'srt': srt, 'poke': poke, 'wipe': wipe})
         F.update({k: MF.DEFAULT_FUNCTIONS[k] for k in ('abs',) if k in MF.DEFAULT_FUNCTIONS and k not in F})
         S = {'k': 1000.0}
         before = (canon(V), sorted(F), canon(S))
